@@ -646,6 +646,12 @@ def _loaded_first(node, v):
         if isinstance(n, ast.Assign):
             ev(n.value)
             effect()
+        if isinstance(n, ast.AugAssign) and isinstance(n.target, ast.Name):
+            if n.target.id == v:
+                result[0] = True
+                raise _Stop()
+            ev(n.value)
+            effect()
         if isinstance(n, ast.If):
             ev(n.test)
             effect()
@@ -926,7 +932,8 @@ def _inline_read_aliases_1(fn, strict, read_chain, stored, params, body):
                                 if not _skippable(s_):
                                     return False
                                 continue
-                            if isinstance(s_, (ast.Assign, ast.Return, ast.Expr, ast.Raise)) and not isinstance(s_, ast.If):
+                            if isinstance(s_, (ast.Assign, ast.Return, ast.Expr, ast.Raise)) or (
+                                    isinstance(s_, ast.AugAssign) and isinstance(s_.target, ast.Name) and s_.target.id != v):
                                 # the use is evaluated before whatever the statement itself writes, if nothing effectful
                                 # comes first in it (or nothing in it writes at all)
                                 if all(_loaded_first_occurrence(s_, v)) or (not strict and _clean_stmt(s_)):
@@ -1372,6 +1379,38 @@ def _norm_simple(stmts, ctx):
                         out.append(ast.Assign(targets=[t], value=e, lineno=st.lineno, col_offset=0))
                     changed = True
                     i += 1
+                    continue
+            # for v in count(K): BODY   ->   v = K ; while True: BODY ; v += 1     (BODY neither re-binds v nor continues)
+            if isinstance(st, ast.For) and not st.orelse and isinstance(st.target, ast.Name) and isinstance(st.iter, ast.Call) \
+                    and ast.unparse(st.iter.func) in ("count", "it.count", "itertools.count") and not st.iter.keywords \
+                    and len(st.iter.args) in (0, 1) and all(isinstance(a_, ast.Constant) and type(a_.value) is int
+                                                             for a_ in st.iter.args):
+                v_ = st.target.id
+
+                def own_continue(stmts_):
+                    for b_ in stmts_:
+                        if isinstance(b_, ast.Continue):
+                            return True
+                        if isinstance(b_, (ast.For, ast.While) + FuncTypes):
+                            continue
+                        for fld_ in ("body", "orelse", "finalbody"):
+                            if own_continue(getattr(b_, fld_, []) or []):
+                                return True
+                        for h_ in getattr(b_, "handlers", []) or []:
+                            if own_continue(h_.body):
+                                return True
+                    return False
+                if not own_continue(st.body) and v_ not in {n_.id for b_ in st.body for n_ in ast.walk(b_)
+                                                            if isinstance(n_, ast.Name) and isinstance(n_.ctx, (ast.Store, ast.Del))}:
+                    k_ = st.iter.args[0].value if st.iter.args else 0
+                    init = ast.Assign(targets=[ast.Name(id=v_, ctx=ast.Store())], value=ast.Constant(value=k_),
+                                      lineno=st.lineno, col_offset=0)
+                    inc = ast.AugAssign(target=ast.Name(id=v_, ctx=ast.Store()), op=ast.Add(), value=ast.Constant(value=1),
+                                        lineno=st.lineno, col_offset=0)
+                    loop_ = ast.While(test=ast.Constant(value=True), body=list(st.body) + [inc], orelse=[],
+                                      lineno=st.lineno, col_offset=0)
+                    stmts[i:i + 1] = [init, loop_]
+                    changed = True
                     continue
             rew = _tuple_assign_rewrite(st)
             if rew is not None:
@@ -1829,19 +1868,46 @@ def _norm_simple(stmts, ctx):
             # where TEST reads x and literals only and E1 / E2 are (conditional expressions of) literals that decide it:
             # the second ``if`` is threaded into the arms of the first
             if isinstance(st, ast.If) and st.orelse and isinstance(nxt, ast.If):
-                def last_assign(block):
+                def flag_name(block):
                     if block and isinstance(block[-1], ast.Assign) and len(block[-1].targets) == 1 \
                             and isinstance(block[-1].targets[0], ast.Name):
-                        return block[-1].targets[0].id, _const_set(block[-1].value)
-                    return None, None
-                x1, vs1 = last_assign(st.body)
-                x2, vs2 = last_assign(st.orelse)
-                if x1 is not None and x1 == x2 and vs1 and vs2:
-                    d1, d2 = _decide_test(nxt.test, x1, vs1), _decide_test(nxt.test, x1, vs2)
-                    if d1 is not None and d2 is not None and d1 != d2:
-                        pick = lambda d: [ast.parse(ast.unparse(x_)).body[0] for x_ in (nxt.body if d else nxt.orelse)]
-                        out.append(ast.If(test=st.test, body=list(st.body) + pick(d1), orelse=list(st.orelse) + pick(d2),
-                                          lineno=st.lineno, col_offset=0))
+                        return block[-1].targets[0].id
+                    if block and isinstance(block[-1], ast.If) and block[-1].orelse:
+                        a_, b_ = flag_name(block[-1].body), flag_name(block[-1].orelse)
+                        return a_ if a_ is not None and a_ == b_ else None
+                    return None
+
+                def thread(block, x, drop):
+                    """block with the continuation the value of x selects appended on every path; None when undecided"""
+                    last = block[-1]
+                    if isinstance(last, ast.Assign):
+                        vs = _const_set(last.value)
+                        d = _decide_test(nxt.test, x, vs) if vs else None
+                        if d is None:
+                            return None
+                        seen.add(d)
+                        cont = [ast.parse(ast.unparse(x_)).body[0] for x_ in (nxt.body if d else nxt.orelse)]
+                        return list(block[:-1] if drop else block) + cont
+                    nb, no = thread(last.body, x, drop), thread(last.orelse, x, drop)
+                    if nb is None or no is None:
+                        return None
+                    return list(block[:-1]) + [ast.If(test=last.test, body=nb or [ast.Pass()], orelse=no, lineno=last.lineno,
+                                                      col_offset=0)]
+                x1, x2 = flag_name(st.body), flag_name(st.orelse)
+                if x1 is not None and x1 == x2 and ctx.get("root") is not None:
+                    # a flag that is read by this test only is dropped with its assignments
+                    n_assign = sum(1 for b_ in (st.body, st.orelse) for n_ in ast.walk(ast.Module(body=b_, type_ignores=[]))
+                                   if isinstance(n_, ast.Name) and n_.id == x1)
+                    total = sum(1 for n_ in ast.walk(ctx["root"]) if isinstance(n_, ast.Name) and n_.id == x1)
+                    test_loads = _count_loads(nxt.test, x1)
+                    only_stores = all(isinstance(n_.ctx, ast.Store) for b_ in (st.body, st.orelse)
+                                      for n_ in ast.walk(ast.Module(body=b_, type_ignores=[]))
+                                      if isinstance(n_, ast.Name) and n_.id == x1)
+                    drop = only_stores and total == n_assign + test_loads and _count_loads(nxt, x1) == test_loads
+                    seen = set()
+                    nb, no = thread(st.body, x1, drop), thread(st.orelse, x1, drop)
+                    if nb is not None and no is not None and len(seen) == 2:
+                        out.append(ast.If(test=st.test, body=nb or [ast.Pass()], orelse=no, lineno=st.lineno, col_offset=0))
                         changed = True
                         i += 2
                         continue
@@ -3497,6 +3563,53 @@ def _local_lambdas_to_defs(f):
                                         value=ast.Lambda(args=a, body=b_[0].value), lineno=st.lineno, col_offset=0)
                     ast.fix_missing_locations(blk[i])
                     changed = True
+    # ``def g(a): return E`` bound once and mentioned once, as a value in a later simple statement of the same block
+    # (``xmap(g, ..)``): the function is created where it is used - closures see variables, not values, so the place of
+    # creation does not matter
+    for blk in [b for n in ast.walk(f) for b in (getattr(n, "body", None), getattr(n, "orelse", None), getattr(n, "finalbody", None))
+                if isinstance(b, list) and b and isinstance(b[0], ast.stmt)]:
+        i = 0
+        while i < len(blk):
+            st = blk[i]
+            i += 1
+            if not (isinstance(st, ast.FunctionDef) and st is not f and not st.decorator_list):
+                continue
+            a = st.args
+            b_ = docstring_free(st.body)
+            if not (len(b_) == 1 and isinstance(b_[0], ast.Return) and b_[0].value is not None and not a.defaults
+                    and not a.kw_defaults and not a.vararg and not a.kwarg and not a.kwonlyargs
+                    and not any(isinstance(x, (ast.Yield, ast.YieldFrom)) for x in ast.walk(st))):
+                continue
+            if plain_stores.get(st.name, 0) or loads.get(st.name, 0) != 1 or calls.get(st.name, 0):
+                continue
+            if sum(1 for n in ast.walk(f) if isinstance(n, FuncTypes) and n.name == st.name) != 1:
+                continue
+            site = None
+            for s2 in blk[i:]:
+                hit = [n for n in ast.walk(s2) if isinstance(n, ast.Name) and n.id == st.name and isinstance(n.ctx, ast.Load)]
+                if hit:
+                    site = (s2, hit[0])
+                    break
+            if site is None or isinstance(site[0], (ast.For, ast.While, ast.If, ast.Try, ast.With) + FuncTypes):
+                continue
+            # not inside a nested scope of that statement (a comprehension could re-bind a free name of E)
+            nested = any(any(x is site[1] for x in ast.walk(n)) for n in ast.walk(site[0])
+                         if isinstance(n, (ast.Lambda, ast.GeneratorExp, ast.ListComp, ast.SetComp, ast.DictComp)))
+            if nested:
+                continue
+            lam = ast.Lambda(args=a, body=b_[0].value)
+            for n in ast.walk(site[0]):
+                for fld, val in ast.iter_fields(n):
+                    if val is site[1]:
+                        setattr(n, fld, lam)
+                    elif isinstance(val, list):
+                        for k_, x_ in enumerate(val):
+                            if x_ is site[1]:
+                                val[k_] = lam
+            blk.remove(st)
+            i -= 1
+            ast.fix_missing_locations(site[0])
+            changed = True
     for blk in [b for n in ast.walk(f) for b in (getattr(n, "body", None), getattr(n, "orelse", None), getattr(n, "finalbody", None))
                 if isinstance(b, list) and b and isinstance(b[0], ast.stmt)]:
         for i, st in enumerate(blk):
